@@ -149,10 +149,67 @@ def shape(cfg):
     return out
 
 
+def file_include_cases(acc, rng, count):
+    """`.file` includes the bytes of a file as they are - every byte value, also an empty file - named relative to the source
+    file that contains the directive (also from an imported file in another directory, also with an interpolated name); labels
+    behind the data are addresses behind all of it. The image must be the concatenation."""
+    for _ in range(count):
+        def blob():
+            return bytes(rng.randrange(256) for _ in range(rng.choice([0, 1, 2, 3, 17, 255, 256, 257, rng.randrange(0, 600)])))
+        b1, b2, b3 = blob(), blob(), blob()
+        pre = [rng.randrange(256) for _ in range(rng.randrange(0, 4))]
+        files = {"data/blob.bin": b1, "sub/inner.bin": b2, "x y.bin": b3}
+        main = [".byte %s" % ", ".join(map(str, pre))] if pre else []
+        img = bytes(pre)
+        order = ["plain", "import", "interp", "spaces"]
+        rng.shuffle(order)
+        order = order[:rng.randrange(1, 5)]
+        for o in order:
+            if o == "plain":
+                main.append('.file "data/blob.bin"')
+                img += b1
+            elif o == "import":
+                main.append('.import * from "sub/inc.asm"')
+                files["sub/inc.asm"] = 'inc_start:\n.file "inner.bin"\ninc_end:\n'
+                img += b2
+            elif o == "interp":
+                main.append('.const stem = "blob"\n.file "data/{stem}.bin"')
+                img += b1
+            else:
+                main.append('.file "x y.bin"')
+                img += b3
+        main.append("behind:\n.word behind")
+        end = 0x2000 + len(img)
+        img += bytes([end & 255, end >> 8])
+        files["main.asm"] = "\n".join(main) + "\n"
+        acc.evaluations += 1
+        with TempProject(files, "") as tp:
+            r = run_mos(["--no-color", "-e", "Short", "build"], tp.dir)
+            path = os.path.join(tp.dir, "target", "main.prg")
+            got = open(path, "rb").read() if os.path.exists(path) else None
+        w = {"main.asm": files["main.asm"], "blobs": {k: v.hex() for k, v in files.items() if isinstance(v, bytes)}, "exit": r["rc"], "stdout": r["out"][-300:]}
+        if r["timeout"] or r["rc"] in (96, 97, 101) or (r["rc"] or 0) < 0:
+            acc.inconc("file-include build did not finish normally (exit %s)" % r["rc"])
+            continue
+        acc.count("file_include.builds")
+        if end > 0xFFFF:
+            continue
+        want = bytes([0x00, 0x20]) + img
+        if r["rc"] != 0 or got is None:
+            acc.violation("file-include|rejected|%s" % "+".join(sorted(order)), "a project that includes binary files was rejected: %s" % r["out"][-160:], w)
+        elif got != want:
+            k = next((j for j in range(min(len(got), len(want))) if got[j] != want[j]), min(len(got), len(want)))
+            acc.violation("file-include|image-differs|%s" % "+".join(sorted(order)), "main.prg differs from the concatenation at offset %d (%d vs %d bytes)" % (k, len(got), len(want)),
+                          dict(w, got=got.hex()[:400], want=want.hex()[:400]))
+        else:
+            acc.nontriv("file-include", files["main.asm"], len(img))
+
+
 def shard(idx, n, seed, tier, params):
     acc = Acc()
     rng = rng_for(seed, "c09", idx)
     t_end = time.time() + params["budget"]
+    file_include_cases(acc, rng, max(1, (120 if tier == "quick" else 3000) // n))
     errs = [None] * 6 + ["oversize", "short-no-fill", "unknown-bank", "no-bank", "beyond-ffff", "prg-multibank"]
     for i in range(params["builds"] // n):
         if time.time() > t_end:
@@ -224,6 +281,8 @@ def main(tier, seed):
              "byte payloads (start adjacent/gapped/overlapping/below the bank start, pc, write = false, segments.x.end dependencies) x "
              "output-format prg/bin/unset x output-filename; half of the runs carry one deliberate error (oversize, short without fill, "
              "unknown bank, no bank, beyond $FFFF, prg with several banks). `mos build` runs in a scratch directory; every file of the "
-             "target directory is compared with the layout model, invalid configurations must fail and write nothing. Non-trivial = "
-             "distinct configuration judged.",
+             "target directory is compared with the layout model, invalid configurations must fail and write nothing. File includes: "
+             "projects whose image is the concatenation of data and binary files included with `.file` (all byte values, empty files, "
+             "names relative to an imported file in another directory, interpolated names, names with blanks) followed by a label's address. "
+             "Non-trivial = distinct configuration judged.",
         assumptions=["layout.py is the statement of C09 turned into 60 lines of Python", "the first bank is never empty when a prg header is expected"])
